@@ -1,5 +1,6 @@
 from __future__ import annotations
 
+from copy import deepcopy
 import random
 import re
 import string
@@ -260,8 +261,10 @@ class SigmaFilter(SigmaRuleBase):
             prefix = f"{prefix_base}{i}"
 
         # Rename every filter detection identifier with the shared prefix.
+        # Every rule gets its own copy of the filter detections: pipelines transform the detections
+        # of a rule in place, a shared object would be transformed once per filtered rule.
         for original_cond_name, condition in self.filter.detections.items():
-            rule.detection.detections[prefix + "_" + original_cond_name] = condition
+            rule.detection.detections[prefix + "_" + original_cond_name] = deepcopy(condition)
 
         # Rewrite the filter condition string so that every identifier/pattern token is
         # prefixed.  This handles:
